@@ -100,5 +100,58 @@ impl Writeable for SocketAddress {
     hostname.write(writer)?;
 //@end
 }
+// ---- node_announcement, reading side: the address list is bounded by the declared addrlen -------------------------------
+pub enum DecodeError { UnknownVersion, UnknownRequiredFeature, InvalidValue, ShortRead, BadLengthDescriptor, Io, UnsupportedCompression, DangerousValue }
+pub struct AddrReader { pub consumed: Ghost<int>, pub limit: Ghost<int> }
+pub open spec fn descriptors_len(s: Seq<SocketAddress>) -> int decreases s.len() { if s.len() == 0 { 0 } else { descriptors_len(s.drop_last()) + 1 + descriptor_len(s.last()) } }
+pub proof fn lemma_descriptors_push(s: Seq<SocketAddress>, a: SocketAddress)
+    ensures descriptors_len(s.push(a)) == descriptors_len(s) + 1 + descriptor_len(a)
+{ assert(s.push(a).drop_last() =~= s); }
+// the blanket `Readable for Result<SocketAddress, u8>` : one type byte, then the descriptor's body when the type is known
+#[verifier::external_body] pub fn read_address_or_unknown_descriptor(r: &mut AddrReader) -> (res: Result<Result<SocketAddress, u8>, DecodeError>)
+    ensures final(r).limit == old(r).limit, final(r).consumed@ <= final(r).limit@,
+        match res { Ok(Ok(a)) => addr_ok(a) && final(r).consumed@ == old(r).consumed@ + 1 + descriptor_len(a),
+                    Ok(Err(_)) => final(r).consumed@ == old(r).consumed@ + 1,
+                    Err(_) => final(r).consumed@ >= old(r).consumed@ }
+{ unimplemented!() }
+//@extract lightning/src/ln/msgs.rs :: impl LengthReadable for UnsignedNodeAnnouncement :: fn read_from_fixed_length_buffer
+//@slice R15
+    let mut addresses: Vec<SocketAddress> = Vec::new(); let mut addr_readpos = 0; let mut excess = false; let mut excess_byte = 0; loop { $body:any } let mut excess_data
+//@with
+    fn read_address_list(r: &mut AddrReader, addr_len: u16) -> Result<(Vec<SocketAddress>, u16, bool, u8), DecodeError> { let mut addresses: Vec<SocketAddress> = Vec::new(); let mut addr_readpos = 0; let mut excess = false; let mut excess_byte = 0;
+        loop
+            invariant_except_break
+                !excess, r.consumed@ == old(r).consumed@ + addr_readpos,
+            invariant
+                r.limit == old(r).limit, 0 <= old(r).consumed@ <= r.consumed@ <= r.limit@ <= 65535,
+                addr_readpos as int == descriptors_len(addresses@), addr_readpos <= addr_len,
+            ensures
+                r.limit == old(r).limit, r.consumed@ <= r.limit@,
+                addr_readpos as int == descriptors_len(addresses@), addr_readpos <= addr_len,
+                r.consumed@ == old(r).consumed@ + addr_readpos + (if excess { 1int } else { 0 }),
+                excess ==> addr_readpos < addr_len,
+            decreases addr_len - addr_readpos
+        { $body }
+        Ok((addresses, addr_readpos, excess, excess_byte)) }
+//@rw R5
+    match Readable::read(r) {
+//@with
+    match read_address_or_unknown_descriptor(r) {
+//@rw R9
+    addresses.push(addr);
+//@with
+    proof { lemma_descriptors_push(addresses@, addr); }
+    addresses.push(addr);
+//@ret res
+//@requires
+    0 <= old(r).consumed@ <= old(r).limit@ <= 65535,
+//@ensures P C13 the-address-descriptors-accepted-from-a-node-announcement-never-extend-past-the-declared-addrlen
+    res matches Ok(t) ==> t.1 as int == descriptors_len(t.0@) && t.1 <= addr_len
+        && final(r).consumed@ == old(r).consumed@ + t.1 + (if t.2 { 1int } else { 0 }) && (t.2 ==> t.1 < addr_len),
+//@mutant descriptor_type_byte_left_out_of_the_bound
+    if addr_len < addr_readpos + 1 + addr.len() {
+//@with
+    if addr_len < addr_readpos + addr.len() {
+//@end
 }
 fn main() {}
